@@ -435,6 +435,37 @@ def r_teardown(prog, R, L):
             r.viol("reinit tests %s under lock" % fld, g.name, g.loc(g.ln), "ares_reinit does not test channel->%s with the lock held" % fld)
 
 
+def r_evmerge(prog, R):
+    r = R.rule("R-C11-EVMERGE", "requests queued for the event thread are merged only with a live request for the same handle, never with a queued removal: a descriptor "
+               "number closed and reopened before the event thread looks is removed first and registered afresh (otherwise its events are lost)", floor=2,
+               analysis="exact guard on every match returned by the update lookup")
+    f = prog.func("ares_event_update_find")
+    mf = MustFacts(f, track_calls=False)
+    n = 0
+    for b, i, el in f.returns():
+        e = strip(el.get("e"))
+        if e is None or is_null(e) or not is_var(e):
+            continue
+        n += 1
+        ev = e["n"]
+        kind = "handle"
+        live = False
+        for c3, p3 in mf.cond_facts_at(b, i):
+            op, l3, r3 = norm_cmp(c3, p3)
+            ls = strip(l3)
+            if is_var(ls) and r3 is not None and name_of_const(r3) == "ARES_SOCKET_BAD" and ls.get("vk") == "param":
+                kind = "socket" if op == "!=" else "data-handle"
+            if ls is not None and ls.get("k") == "mem" and ls["f"] == "flags" and is_var(strip(ls["b"]), ev):
+                if (op == "!=" and r3 is not None and const_val(r3) == 0) or op == "truth":
+                    live = True
+        k = "%s match is not a queued removal" % kind
+        if live:
+            r.ok(k, f.loc(el))
+        else:
+            r.viol(k, f.name, f.loc(el), "ares_event_update_find returns a queued update without requiring %s->flags != 0: a queued 'remove fd N' is overwritten by the re-registration of a new socket that got the same number, the event thread then modifies a registration that no longer exists and never watches the new socket (its answers are never read)" % ev)
+    r.require(n >= 2, "ares_event_update_find: socket / data-handle matches not found")
+
+
 def run(prog, R, tier):
     R.assume("ares_init_options works on an unpublished channel and ares_destroy is called when no other user thread uses the channel (API contract)")
     R.assume("configuration analysed: CARES_THREADS on Linux (epoll/poll/select, pipe wake-up)")
@@ -447,3 +478,4 @@ def run(prog, R, tier):
     r_teardown(prog, R, L)
     # the one cross-thread wake-up the per-request time bound rests on (same rule as C07)
     C07.r_wake(prog, R, rid="R-C11-WAKE")
+    r_evmerge(prog, R)
